@@ -570,10 +570,14 @@ func (g *gen) args(s *sig, d int) {
 		}
 	}
 	if len(s.keys) > 0 && g.preserveParams {
-		for _, k := range s.keys {
+		for i, k := range s.keys {
 			if g.chance(60) {
 				g.feat("keyword-args")
-				g.e.sym(Occ{N: ":" + k, R: "kw", C: "keyword-arg"})
+				id := 0
+				if i < len(s.keyIDs) {
+					id = s.keyIDs[i]
+				}
+				g.e.sym(Occ{N: ":" + k, R: "kw", C: "keyword-arg", B: id})
 				g.num(d - 1)
 			}
 		}
